@@ -315,6 +315,10 @@ class Ctx:
                 if subst is not None and t in subst:
                     t = subst[t]
                 return project(t, b.proj)
+            if b.kind == "arm" and b.node is not None and b.node.get("k") != "LetCond" and not b.mut:
+                t = self._arm_payload(b, subst)
+                if t is not None:
+                    return t
             if b.kind == "let" and not b.mut and b.init is not None and b.v not in self.addr_mut:
                 t = self.term(b.init, subst)
                 if subst is not None or self._let_inlinable(b, t, n):
@@ -436,12 +440,46 @@ class Ctx:
                             s_ = self._ok_payload(n["scrut"], subst)
                             if s_ is not None:
                                 return s_
+            # a match with exactly one arm that can complete has that arm's value
+            from .guards import diverges as _dv
+            live = [a for a in arms if not _dv(a["body"])]
+            if len(live) == 1 and live[0].get("guard") is None and len(arms) >= 2:
+                return self.term(live[0]["body"], subst)
             return ("expr", k, n.get("id"))
         if k == "Closure":
             return ("closure", n["id"])
         if k == "Macro":
             return ("macro", n.get("name"), n["id"])
         return ("expr", k, n.get("id"))
+
+    def _arm_payload(self, b, subst):
+        """x bound by the only non-diverging arm `(.., Ok(x), ..) => ..` (or `Ok(x) => ..`) of a match whose scrutinee
+        element is a call with a single Ok path (degree()): x is that Ok payload."""
+        from .guards import diverges
+        arm = b.node
+        m = arm.get("_p")
+        if m is None or m.get("k") != "Match":
+            return None
+        live = [a for a in m.get("arms", []) if not diverges(a["body"])]
+        if len(live) != 1 or live[0] is not arm or arm.get("guard") is not None:
+            return None
+        pat, scr, path = arm["pat"], strip(m["scrut"]), list(b.proj)
+        while path:
+            k = pat.get("k")
+            if k == "Tuple" and scr.get("k") == "Tup" and isinstance(path[0], int) and path[0] < len(pat["ps"]) and len(pat["ps"]) == len(scr["es"]):
+                pat, scr = pat["ps"][path[0]], strip(scr["es"][path[0]])
+                path = path[1:]
+                continue
+            if k == "TupleStruct" and str(pat.get("path", "")).endswith("Ok") and len(pat.get("ps", [])) == 1 and path[0] == 0:
+                if pat["ps"][0].get("k") == "Bind" and len(path) == 1:
+                    return self._ok_payload(scr, subst)
+                return None
+            if k == "Struct" and str(pat.get("path", "")).endswith("Ok") and len(pat.get("fields", [])) == 1:
+                if pat["fields"][0]["pat"].get("k") == "Bind" and len(path) == 1:
+                    return self._ok_payload(scr, subst)
+                return None
+            return None
+        return None
 
     def _let_inlinable(self, b, t, use):
         """An immutable `let x = e` may be replaced by e's term at a use only if nothing e reads can change
